@@ -10,11 +10,13 @@ def plans(tier):
     if tier == "quick":
         return [dict(gens="collapse,hole,star,rect", variants="base", n=1800, W=6, nmax=12, bias=0.6, seed=s),
                 dict(gens="rect", variants="base", n=500, W=10, nmax=12, bias=0.6, seed=s + 3),
+                dict(gens="rect", variants="base", n=600, W=12, nmax=12, bias=0.6, seed=s + 6),     # room for an island with a courtyard
                 dict(gens="collapse", variants="base", n=700, W=8, nmax=12, bias=0.6, seed=s + 1),
                 dict(gens="court", variants="base", n=500, W=6, nmax=12, bias=0.6, seed=s + 4),
                 dict(gens="court", variants="base", n=500, W=12, nmax=12, bias=0.6, seed=s + 5)]    # room for a hole that touches nothing
     return [dict(gens="collapse,hole,star,rect", variants="base", n=50000, W=6, nmax=14, bias=0.6, seed=s),
             dict(gens="rect", variants="base", n=15000, W=10, nmax=12, bias=0.6, seed=s + 3),
+            dict(gens="rect", variants="base", n=8000, W=13, nmax=12, bias=0.6, seed=s + 6),
             dict(gens="collapse", variants="base", n=30000, W=8, nmax=12, bias=0.6, seed=s + 1),
             dict(gens="hole,collapse", variants="base", n=20000, W=5, nmax=16, bias=0.8, seed=s + 2),
             dict(gens="court", variants="base", n=15000, W=6, nmax=12, bias=0.6, seed=s + 4),
